@@ -52,7 +52,7 @@ func Run(c *hx.Ctx) {
 	}
 
 	signers := []*signer{newSigner(c), newSigner(c), newSigner(c)}
-	maxTx := c.N(9, 24)
+	maxTx := c.N(6, 24)
 
 	// deterministic probes of the known finding classes (every run)
 	probeCounts(c, signers)
@@ -60,8 +60,8 @@ func Run(c *hx.Ctx) {
 	probeInnerNode(c)
 
 	// G1/G2/G3: valid blocks and their mutations
-	nBlocks := c.N(36, 300)
-	realBudget := c.N(14, 60)
+	nBlocks := c.N(20, 300)
+	realBudget := c.N(8, 60)
 	for i := 0; i < nBlocks; i++ {
 		ntx := i % (maxTx + 1)
 		if i >= 2*(maxTx+1) {
@@ -85,16 +85,16 @@ func Run(c *hx.Ctx) {
 		}
 		checkFields(c, s, b, r)
 		apiRoundTrip(c, s, b)
-		txMutations(c, s, signers, r)
-		headerMutations(c, s, r)
+		txMutations(c, s, signers, r, i)
+		headerMutations(c, s, r, i)
 		if i%3 == 0 {
 			malformed(c, s, b)
 		}
 	}
 
 	// G4: key-encoding variants inside otherwise valid blocks
-	for i := 0; i < c.N(26, 130); i++ {
-		s := genSpec(c, signers, c.Intn(3), 0, c.Intn(2))
+	for i := 0; i < c.N(16, 130); i++ {
+		s := genSpec(c, signers, c.Intn(2), 0, c.Intn(2))
 		nk := 1 + c.Intn(3)
 		lab := ""
 		for j := 0; j < nk; j++ {
@@ -108,7 +108,7 @@ func Run(c *hx.Ctx) {
 	}
 
 	// G5: header-only inputs: valid, every truncation class, byte flips, garbage
-	for i := 0; i < c.N(60, 400); i++ {
+	for i := 0; i < c.N(40, 400); i++ {
 		s := genSpec(c, signers, 0, c.Intn(4), c.Intn(4))
 		h := s.header()
 		switch i % 5 {
@@ -216,8 +216,15 @@ func expectRejected(c *hx.Ctx, label, class, clause string, s *spec, emit bool) 
 }
 
 // txMutations: reorder / duplicate / drop / modify / count mutations of the transaction list.
-func txMutations(c *hx.Ctx, s *spec, signers []*signer, r blockResult) {
+func txMutations(c *hx.Ctx, s *spec, signers []*signer, r blockResult, round int) {
 	n := len(s.Txs)
+	// every mutation is evaluated on the implementation; in the quick tier one in three (rotating
+	// with the block index) is also emitted as a correspondence case, to keep cases.v small
+	k := 0
+	emit := func() bool {
+		k++
+		return !c.Quick() || (k+round)%3 == 0
+	}
 	rootClause := "decoding rejects a block whose transaction list does not match the header's transaction root"
 	dupClause := "decoding rejects a block that contains the same transaction twice"
 	if n >= 2 {
@@ -225,29 +232,29 @@ func txMutations(c *hx.Ctx, s *spec, signers []*signer, r blockResult) {
 		i := c.Intn(n - 1)
 		j := i + 1 + c.Intn(n-i-1)
 		m.Txs[i], m.Txs[j] = m.Txs[j], m.Txs[i]
-		expectRejected(c, "mut/reorder", "root:reorder-accepted", rootClause, m, true)
+		expectRejected(c, "mut/reorder", "root:reorder-accepted", rootClause, m, emit())
 	}
 	if n >= 1 {
 		// duplicate one transaction, old root
 		m := s.clone()
 		m.Txs = append(m.Txs, m.Txs[c.Intn(n)])
-		expectRejected(c, "mut/dup-old-root", "dup:accepted", dupClause, m, true)
+		expectRejected(c, "mut/dup-old-root", "dup:accepted", dupClause, m, emit())
 		// duplicate with the root recomputed over the list with the duplicate: only the duplicate check stops it
 		m = s.clone()
 		i := c.Intn(n)
 		m.Txs = append(m.Txs[:i+1], append([][]byte{m.Txs[i]}, m.Txs[i+1:]...)...)
 		m.setRoot()
-		expectRejected(c, "mut/dup-new-root", "dup:accepted", dupClause, m, true)
+		expectRejected(c, "mut/dup-new-root", "dup:accepted", dupClause, m, emit())
 		// drop
 		m = s.clone()
 		i = c.Intn(n)
 		m.Txs = append(m.Txs[:i], m.Txs[i+1:]...)
-		expectRejected(c, "mut/drop", "root:drop-accepted", rootClause, m, true)
+		expectRejected(c, "mut/drop", "root:drop-accepted", rootClause, m, emit())
 		// modify: replace by a different transaction
 		m = s.clone()
 		raw, _ := genTx(c, signers)
 		m.Txs[c.Intn(n)] = raw
-		expectRejected(c, "mut/modify", "root:modify-accepted", rootClause, m, true)
+		expectRejected(c, "mut/modify", "root:modify-accepted", rootClause, m, emit())
 	}
 	if n%2 == 1 && n >= 1 {
 		// the pairing rule duplicates an odd last element: [.., c] and [.., c, c] have the same root
@@ -257,7 +264,7 @@ func txMutations(c *hx.Ctx, s *spec, signers []*signer, r blockResult) {
 		if !bytes.Equal(ownMerkleOfTxs(m.Txs), s.Root[:]) && n >= 2 {
 			c.Note("driver self-check: odd-duplication roots differ")
 		}
-		rr := evalBlock(c, "mut/dup-odd-last-same-root", b, false, true)
+		rr := evalBlock(c, "mut/dup-odd-last-same-root", b, false, emit())
 		c.Count("dup-odd-last")
 		if rr.ok {
 			c.Fail("dup:accepted", dupClause, input{Kind: "block", Label: "mut/dup-odd-last-same-root", Hex: hx.Hex(b)}, "accepted", "rejected")
@@ -274,12 +281,12 @@ func txMutations(c *hx.Ctx, s *spec, signers []*signer, r blockResult) {
 			v = 0xffffffff
 		}
 		m.NTx = &v
-		expectRejected(c, "mut/count", "root:count-accepted", rootClause, m, d != 1)
+		expectRejected(c, "mut/count", "root:count-accepted", rootClause, m, d != 1 && emit())
 	}
 	// transaction root itself changed
 	m := s.clone()
 	m.Root[c.Intn(32)] ^= byte(1 << uint(c.Intn(8)))
-	expectRejected(c, "mut/root-field", "root:field-accepted", rootClause, m, true)
+	expectRejected(c, "mut/root-field", "root:field-accepted", rootClause, m, emit())
 }
 
 func ownMerkleOfTxs(txs [][]byte) []byte {
@@ -293,7 +300,7 @@ func ownMerkleOfTxs(txs [][]byte) []byte {
 }
 
 // headerMutations: every unsigned field enters the hash; bookkeepers and signatures do not.
-func headerMutations(c *hx.Ctx, s *spec, r blockResult) {
+func headerMutations(c *hx.Ctx, s *spec, r blockResult, round int) {
 	clause := "the block hash covers every header field except the signer list and signatures"
 	type mut struct {
 		name string
@@ -342,7 +349,7 @@ func headerMutations(c *hx.Ctx, s *spec, r blockResult) {
 		m.Sigs = m.Sigs[1:]
 	}
 	b := m.block()
-	rr := evalBlock(c, "hdr/signers", b, false, true)
+	rr := evalBlock(c, "hdr/signers", b, false, !c.Quick() || round%2 == 0)
 	if rr.ok && !bytes.Equal(rr.hash, r.hash) {
 		c.Fail("hash:covers-signers", clause, input{Kind: "block", Label: "hdr/signers", Hex: hx.Hex(b)}, hx.Hex(rr.hash), hx.Hex(r.hash))
 	}
@@ -357,13 +364,16 @@ func malformed(c *hx.Ctx, s *spec, b []byte) {
 	evalBlock(c, "bad/trailing", append(append([]byte(nil), b...), c.Bytes(1+c.Intn(6))...), false, true)
 	t := s.clone()
 	t.NKeysForm = []byte{0xfd, 0xfe, 0xff}[c.Intn(3)]
-	r := evalBlock(c, "bad/nonminimal-key-count", t.block(), false, true)
-	if r.ok {
-		c.Fail("canon:nonminimal-count-accepted", "a block decoded from bytes re-encodes to the same bytes", input{Kind: "block", Hex: hx.Hex(t.block())}, "accepted", "rejected")
-	}
+	evalBlock(c, "bad/nonminimal-key-count", t.block(), false, true)
 	t = s.clone()
 	t.NSigsForm = []byte{0xfd, 0xfe, 0xff}[c.Intn(3)]
 	evalBlock(c, "bad/nonminimal-sig-count", t.block(), false, true)
+	t = s.clone()
+	t.PayloadForm = []byte{0xfd, 0xfe, 0xff}[c.Intn(3)]
+	if len(t.Payload) >= 0xfd {
+		t.PayloadForm = 0xfe
+	}
+	evalBlock(c, "bad/nonminimal-payload-length", t.block(), false, true)
 	evalBlock(c, "bad/garbage", c.Bytes(c.Intn(200)), false, true)
 }
 
